@@ -121,7 +121,12 @@ AlphaC08P == Base08 \cup Regions("P", {1}, {"PBb", "PBB", "PWs", "PWS", "PCf", "
 SysC08V == SysC08({"O", "V"})
 AlphaC08V == Base08 \cup Regions("V", {1}, {"VSh", "VSf", "VAc", "VAC", "VMa", "VMA"}) \cup Regions("V", {2}, {"VSh", "VSf"})
 SysC086 == SysC08({"O", "6"})
+\* ... plus two tasks: executing a task is a region of the subsystem stack too (also nested over a running task)
 AlphaC086 == Base08 \cup Regions("6", {1}, {"6C[", "6C]", "6U[", "6U]", "6Hw", "6HW"}) \cup Regions("6", {2}, {"6C[", "6C]"})
+             \cup {[th |-> 1, m |-> "6Yc", mc |-> "6", a |-> <<1, 5>>, j |-> TRUE],
+                   [th |-> 1, m |-> "6Tc", mc |-> "6", a |-> <<1, 1>>, j |-> FALSE],
+                   [th |-> 1, m |-> "6Tc", mc |-> "6", a |-> <<2, 1>>, j |-> FALSE]}
+             \cup {[th |-> 1, m |-> m, mc |-> "6", a |-> <<k>>, j |-> FALSE] : m \in {"6Tx", "6Te"}, k \in {1, 2}}
 SysC08K == SysC08({"O", "K"})
 AlphaC08K == Base08 \cup Regions("K", {1, 2}, {"KCO", "KCI"}) \cup Regions("O", {1}, {"OF[", "OF]"})
 
